@@ -413,6 +413,30 @@ def x10(cx: Cx, ob: Ob) -> None:
     constructor_owns_records(cx, ob)
 
 
+def _every_use_copies(cx: Cx, fn) -> bool:
+    """Every call of ``fn`` in the package is the receiver of ``.model_copy(deep=True)`` or the argument of
+    ``copy.deepcopy``: the shared object itself never leaves the call site."""
+    import ast as _ast
+
+    n_calls = 0
+    for g in cx.model.functions.values():
+        parents = {}
+        for n in _ast.walk(g.node):
+            for c in _ast.iter_child_nodes(n):
+                parents[id(c)] = n
+        for n in _ast.walk(g.node):
+            if isinstance(n, _ast.Call) and ((isinstance(n.func, _ast.Name) and n.func.id == fn.name) or (isinstance(n.func, _ast.Attribute) and n.func.attr == fn.name)):
+                n_calls += 1
+                par = parents.get(id(n))
+                gp = parents.get(id(par)) if par is not None else None
+                copied = (
+                    isinstance(par, _ast.Attribute) and par.attr == "model_copy" and isinstance(gp, _ast.Call) and any(k.arg == "deep" and isinstance(k.value, _ast.Constant) and k.value.value is True for k in gp.keywords)
+                ) or (isinstance(par, _ast.Call) and _ast.unparse(par.func).endswith("deepcopy") and par.args and par.args[0] is n)
+                if not copied:
+                    return False
+    return n_calls > 0
+
+
 @obligation("C10-D5", "no memoised factory hands the same mutable object (trie, dict, list) to several converters: a function decorated with lru_cache / cache must not return a mutable container that is stored in converter state", floor=1)
 def d5(cx: Cx, ob: Ob) -> None:
     MUT = ("StringTrie", "dict", "list", "set", "defaultdict", "OrderedDict")
@@ -423,7 +447,10 @@ def d5(cx: Cx, ob: Ob) -> None:
             continue
         s = cx.summary(fn, ob.id, full=True)
         for t, ctx in s.returns():
-            mutable = op(t) in ("new", "dict", "list", "set", "comp") or (op(t) == "call" and callee_name(t) in MUT)
+            mutable = op(t) in ("new", "dict", "list", "set", "comp") or (op(t) == "call" and callee_name(t) in MUT) or (op(t) == "call" and op(t[1]) == "cls" and t[1][1].rsplit(".", 1)[-1] in ("Record", "Converter"))  # Records are changed in place by merges
+            if mutable and _every_use_copies(cx, fn):
+                ob.site(f"{fn.where} {fn.qualname}", "memoised template: every call site takes a deep copy of the result")
+                continue
             if mutable:
                 ob.violate(
                     fn.qualname,
